@@ -53,3 +53,27 @@ Proof.
   unfold vdivs. apply Forall2_map_ext; [|exact Hclip].
   intros x y Hxy. rewrite sumQ_qsum, (qsum_compat _ _ Hclip), Hxy. reflexivity.
 Qed.
+
+(* ---------- what the source's own update rule guarantees ---------- *)
+From TF Require Import SelfConfProofs.
+Lemma Forall2_length_Q (l l' : list Q) : Forall2 Qeq l l' -> length l = length l'.
+Proof. intro F; induction F; cbn; congruence. Qed.
+Lemma Forall2_pos (l l' : list Q) : Forall2 Qeq l l' -> Forall (fun x => 0 < x) l' -> Forall (fun x => 0 < x) l.
+Proof.
+  intro F; induction F as [|a b l l' Hab _ IH]; intro H; [constructor|].
+  inversion H as [|? ? Hb Hl]; subst. constructor; [now rewrite Hab|now apply IH].
+Qed.
+
+Theorem src_selfc_distribution (K : Q) (iters : Z) (thr : Q) (p : list Q) (w : Z) :
+  (0 <= w)%Z -> 0 < thr -> thr <= 1 -> p <> [] ->
+  let q := snd (py_SelfCGA_get_new_proba K iters p w thr) in
+  length q = length p /\ qsum q == 1 /\ Forall (fun x => 0 < x) q.
+Proof.
+  intros Hw H0 H1 Hp q.
+  destruct (code_selfc_new_proba K iters thr p w Hw H1) as [_ F]. fold q in F.
+  destruct (selfc_distribution K (ZtoQ iters) thr p (Z.to_nat w) H0 H1 Hp) as (Hl & Hs & Hpos).
+  repeat split.
+  - rewrite (Forall2_length_Q _ _ F). exact Hl.
+  - rewrite (qsum_compat _ _ F). exact Hs.
+  - exact (Forall2_pos _ _ F Hpos).
+Qed.
